@@ -138,7 +138,9 @@ CHECKS = {
              "(verdict): for real positions with a finite quiescence tree the harness dumps the game graph and what completed fixed-depth "
              "searches of a fresh engine concluded (score, move, EVERY table entry); TLC computes the unpruned quiescence value and minimax "
              "from the graph alone and audits root value, move and every cached claim (SearchAudit.tla). On positions of every "
-             "game phase (no finiteness restriction) the alpha-beta contract is checked at the root (WindowTrace.tla). Step-level "
+             "game phase (no finiteness restriction) the alpha-beta contract is checked at the root (WindowTrace.tla) and the minimax recursion "
+             "V(p,d) = max -V(p.m,d-1) over separate fresh searches (BellmanTrace.tla; roots also through the public find_best_move; tactical roots: "
+             "positions in which a castling / en-passant / promotion / discovered-check move mates). Step-level "
              "binding (no verdict): TLC executes the PlusCal algorithm itself on graphs recorded from real searches and every recorded "
              "step must match (SearchTrace.tla); killer / history / repetition containers against Heur.tla.",
         design_ref="DESIGN.md section 5 C05, 11.5, 11.6", note=_SEARCH_NOTE,
